@@ -111,6 +111,13 @@ def drCmp (a b : Cfg) : Ordering :=
 
 def sortConfigBySelectorAndCreationTime (l : List Cfg) : List Cfg := isort (ltOf drCmp) l
 
+/-- The `less` of `sortConfigByCreationTime` / `sortRoutesByCreationTime` of the Gateway API conversion
+    (pilot/pkg/config/kube/gateway/conversion.go): creation time, NAMESPACE, then name. -/
+def gwCfgCmp (a b : Cfg) : Ordering :=
+  andThen (natCmp a.time b.time) (andThen (strCmp a.ns b.ns) (strCmp a.name b.name))
+
+def sortGatewayConfigs (l : List Cfg) : List Cfg := isort (ltOf gwCfgCmp) l
+
 /-! ### model.SortWorkloadsByCreationTime -/
 
 /-- `WorkloadInfo`: creation time and `Workload.Uid`. -/
